@@ -1,8 +1,10 @@
 package vm
 
 import (
+	"bytes"
 	"fmt"
 	"math/big"
+	"sort"
 
 	sdkerrors "github.com/cosmos/cosmos-sdk/types/errors"
 
@@ -564,7 +566,16 @@ func (d *cStateDb) CommitMultiStore(deleteEmptyObjects bool) error {
 
 	d.committed = true // prohibit further commit
 
+	// NOTE: iterate in a deterministic order, destroying an account emits events.
+	touchedAddresses := make([]common.Address, 0, len(d.touched))
 	for touchedAddress := range d.touched {
+		touchedAddresses = append(touchedAddresses, touchedAddress)
+	}
+	sort.Slice(touchedAddresses, func(i, j int) bool {
+		return bytes.Compare(touchedAddresses[i].Bytes(), touchedAddresses[j].Bytes()) < 0
+	})
+
+	for _, touchedAddress := range touchedAddresses {
 		_, markedAsDestroy := d.selfDestructed[touchedAddress]
 		if markedAsDestroy || (deleteEmptyObjects && d.Empty(touchedAddress)) {
 			d.DestroyAccount(touchedAddress)
